@@ -43,6 +43,8 @@ type R struct {
 	St []FrameRec
 	// unsafe argument of format-style constructors (nil = none)
 	Arg *string
+	// the real error built for this node (not serialised)
+	built error
 }
 
 func (r *R) ToSX() SX {
@@ -434,6 +436,7 @@ func build(r *R) error {
 	default:
 		panic("unknown op " + r.Op)
 	}
+	r.built = res
 	return res
 }
 
